@@ -26,12 +26,26 @@ def sh(cmd, cwd=None, env=None, timeout=3600):
 
 
 def suite(wt):
-    rc, out = sh(f"/venv/bin/python -m pytest -q -p no:cacheprovider --no-cov --timeout=900 -x -q tests "
-                 f"--deselect tests/test_cli.py::test_cli_version --deselect tests/adapters/test_system.py::test_base_has_components_and_wiring 2>&1 | tail -3",
-                 cwd=wt, env={"PYTHONPATH": f"{wt}/src"})
+    base = ("/venv/bin/python -m pytest -q -p no:cacheprovider --no-cov --timeout=900 -q "
+            "--deselect tests/test_cli.py::test_cli_version --deselect tests/adapters/test_system.py::test_base_has_components_and_wiring ")
+    # the HTTP tests bind a fixed port: run them separately and retry when another process holds it
+    rc, out = sh(base + "tests --ignore=tests/adapters/io/test_http_io.py 2>&1 | tail -3", cwd=wt, env={"PYTHONPATH": f"{wt}/src"})
     m = re.search(r"(\d+) passed", out)
     f = re.search(r"(\d+) failed", out)
-    return (int(m.group(1)) if m else 0, int(f.group(1)) if f else 0, out[-300:])
+    e = re.search(r"(\d+) error", out)
+    passed, failed = (int(m.group(1)) if m else 0), (int(f.group(1)) if f else 0) + (int(e.group(1)) if e else 0)
+    hp = 0
+    for _ in range(4):
+        rc, out2 = sh(base + "tests/adapters/io/test_http_io.py 2>&1 | tail -3", cwd=wt, env={"PYTHONPATH": f"{wt}/src"})
+        m2 = re.search(r"(\d+) passed", out2)
+        bad2 = re.search(r"(\d+) (failed|error)", out2)
+        hp = int(m2.group(1)) if m2 else 0
+        if not bad2:
+            break
+        time.sleep(3)
+    else:
+        failed += 1
+    return (passed + hp, failed, out[-300:])
 
 
 def demo(wt):
